@@ -31,7 +31,8 @@ for k in sorted(os.listdir(out)):
     if not ok:
         print("  -> NOT kept (not confirmed)")
         continue
-    name = "%s-%s" % (prop, k)
+    off = int(os.environ.get("SEED_OFFSET", "0"))
+    name = "%s-%s" % (prop, (int(k) + off) if (off and k.isdigit()) else k)
     # avoid clobbering an existing different entry
     dst = os.path.join(ROOT, "seeded", name)
     os.makedirs(dst, exist_ok=True)
